@@ -247,6 +247,13 @@ pub proof fn lemma_floor_multiple(a: int, al: int)
 /// value of an `Into<u64>` argument (vstd's spec for the std integer conversions)
 pub open spec fn into_u64<U: Into<u64>>(a: U) -> u64 { IntoSpec::<u64>::into_spec(a) }
 
+/// ASSUMED: `u64: Into<u64>` is the identity (core's blanket `impl<T> From<T> for T`; vstd has no spec for it)
+#[verifier::external_body]
+pub proof fn axiom_u64_into_u64()
+    ensures <u64 as IntoSpec<u64>>::obeys_into_spec(), forall|x: u64| #[trigger] into_u64(x) == x,
+{
+}
+
 /// integer value of a raw pointer: uninterpreted (any u64 is possible)
 pub uninterp spec fn ptr_addr_spec<T: ?Sized>(p: *const T) -> u64;
 
